@@ -5,12 +5,13 @@
 package simnet
 
 import (
-	"errors"
 	"fmt"
 	"io"
 	"net"
+	"os"
 	"sync"
 	"sync/atomic"
+	"syscall"
 	"time"
 
 	"verifharness/census"
@@ -24,7 +25,9 @@ var (
 	// ErrFaultTemporary is an injected fault that describes itself as a timeout / temporary
 	// condition (like os.ErrDeadlineExceeded or ETIMEDOUT do); errors.Is(it, ErrFault) holds.
 	ErrFaultTemporary error = &faultErr{temporary: true}
-	ErrReset                = errors.New("simnet: connection reset by peer (injected)")
+	// what a TCP connection returns after the peer's RST: a *net.OpError around ECONNRESET (code that
+	// looks at the shape of transport errors must see the real shape)
+	ErrReset error = &net.OpError{Op: "read", Net: "simnet", Err: os.NewSyscallError("read", syscall.ECONNRESET)}
 )
 
 var clock int64
